@@ -121,10 +121,16 @@ impl<'a> Sink<'a> {
             Err(p) => {
                 self.faults += 1;
                 let c = classify(p);
-                if self.sync {
-                    writeln!(self.w, "fault {} | -", c).unwrap();
+                // after an injected fault the white-box state is part of the observation (C10): read it through the hook
+                let st = if matches!(op, Op::Crash { .. }) {
+                    catch_unwind(AssertUnwindSafe(|| format!("{} {}", q.kind().name(), q.snapshot_core()))).unwrap_or_else(|_| "-".into())
                 } else {
-                    writeln!(self.w, "{} => fault {} | -", line, c).unwrap();
+                    "-".into()
+                };
+                if self.sync {
+                    writeln!(self.w, "fault {} | {}", c, st).unwrap();
+                } else {
+                    writeln!(self.w, "{} => fault {} | {}", line, c, st).unwrap();
                 }
                 false
             }
@@ -733,8 +739,8 @@ pub fn wf_of<H: BuildHasher + Default + Clone>(q: &AnyQ<H>) -> bool {
 
 /// operations whose sift-up (or predicate loop) can be interrupted between table updates: the post-crash state of
 /// these is known not to be well-formed on the unchanged tree (KNOWN_FINDINGS.json, property C10)
-pub fn crash_key(kind: Kind, op: &Op, cmp: bool) -> String {
-    format!("{}.{}/{}", kind.name(), op.name(), if cmp { "cmp" } else { "cb" })
+pub fn crash_key(kind: Kind, op: &Op, cmp: u8) -> String {
+    format!("{}.{}/{}", kind.name(), op.name(), match cmp { 1 => "cmp", 0 => "cb", _ => "hk" })
 }
 
 /// C10: for reachable states, every operation, every index k of the user callback that panics: state after
@@ -803,19 +809,22 @@ pub fn crash_stream<H: BuildHasher + Default + Clone>(sink: &mut Sink, rng: &mut
         }
         let op = r.pick(&cands).clone();
         // how many comparisons / callbacks does it perform without a fault?
-        let (kc, kb) = {
+        let (kc, kb, kh) = {
             let mut q = qtmp.clone_q();
             let c0 = cmp_count();
             let b0 = CBCOUNT.with(|c| c.get());
+            let h0 = HKCOUNT.with(|c| c.get());
             let _ = std::panic::catch_unwind(AssertUnwindSafe(|| apply(&mut q, &op, Lookup::Owned)));
-            (cmp_count() - c0, CBCOUNT.with(|c| c.get()) - b0)
+            (cmp_count() - c0, CBCOUNT.with(|c| c.get()) - b0, HKCOUNT.with(|c| c.get()) - h0)
         };
         drop(qtmp);
-        let mut plans: Vec<(bool, u64)> = vec![];
-        for k in 1..=kc.min(max_k) { plans.push((true, k)); }
-        if kc > max_k { plans.push((true, kc)); plans.push((true, r.range(max_k, kc))); }
-        for k in 1..=kb.min(max_k) { plans.push((false, k)); }
-        if matches!(op, Op::IterMut { forget: true, .. } | Op::Drain { forget: true, .. }) { plans.push((false, u64::MAX)); } // leak, no panic
+        let mut plans: Vec<(u8, u64)> = vec![];
+        for k in 1..=kc.min(max_k) { plans.push((1, k)); }
+        if kc > max_k { plans.push((1, kc)); plans.push((1, r.range(max_k, kc))); }
+        for k in 1..=kb.min(max_k) { plans.push((0, k)); }
+        for k in 1..=kh.min(max_k) { plans.push((2, k)); }
+        if kh > max_k { plans.push((2, kh)); plans.push((2, r.range(max_k, kh))); }
+        if matches!(op, Op::IterMut { forget: true, .. } | Op::Drain { forget: true, .. }) { plans.push((0, u64::MAX)); } // leak, no panic
         for (cmp, k) in plans {
             if sink.full() { break; }
             if !sink.case(kind) { continue; }
@@ -836,12 +845,13 @@ pub fn crash_stream<H: BuildHasher + Default + Clone>(sink: &mut Sink, rng: &mut
                     if matches!(nop, Op::IterMut { forget: true, .. } | Op::Drain { forget: true, .. }) { continue; }
                     let crash = j % 4 == 3;
                     let kq = q.kind();
-                    let nop2 = if crash { Op::Crash { cmp: true, k: 1 + r.below(4), op: Box::new(nop.clone()) } } else { nop.clone() };
+                    let ck = if r.chance(1, 3) { 2u8 } else { 1u8 };
+                    let nop2 = if crash { Op::Crash { cmp: ck, k: 1 + r.below(4), op: Box::new(nop.clone()) } } else { nop.clone() };
                     let ok = sink.step(&mut q, &nop2, Lookup::Owned);
                     wf = wf_of(&q);
                     if crash {
                         let st = catch_unwind(AssertUnwindSafe(|| q.snapshot_core())).unwrap_or_else(|_| "unreadable".into());
-                        sink.raw(&format!("#crash key {} faulted {} wf {} state {}", crash_key(kq, &nop, true), (!ok) as u8, wf as u8, st));
+                        sink.raw(&format!("#crash key {} faulted {} wf {} state {}", crash_key(kq, &nop, ck), (!ok) as u8, wf as u8, st));
                     } else if !wf {
                         let st = catch_unwind(AssertUnwindSafe(|| q.snapshot_core())).unwrap_or_else(|_| "unreadable".into());
                         sink.raw(&format!("#broken-by-faultfree-op wf 0 state {}", st));
@@ -857,4 +867,77 @@ pub fn crash_stream<H: BuildHasher + Default + Clone>(sink: &mut Sink, rng: &mut
         }
     }
     TRACK.with(|t| t.set(false));
+}
+
+
+/// C10 mirror stream: a generated history followed by ONE operation with the k-th comparison (or callback) panicking;
+/// the post-fault white-box state is compared with the Lean crash model (`PQ/Model/Crash.lean`) by the driver.
+pub fn crash_mirror_stream<H: BuildHasher + Default + Clone>(sink: &mut Sink, rng: &mut Rng, kinds: &[Kind], ncases: u64, max_k: u64) {
+    for c in 0..ncases {
+        if sink.full() { break; }
+        let mut r = rng.fork(c);
+        let kind = *r.pick(kinds);
+        let pq = kind == Kind::Pq;
+        let pf = Profile { universe: *r.pick(&[4u64, 8, 16, 40]), prio: *r.pick(&[PrioMode::Small(3), PrioMode::Small(20), PrioMode::Wide]), absent_pct: 5,
+                           weights: weights_with(&[("serde_rt", 0), ("deser", 0), ("capacity", 0), ("clone", 0), ("eq", 0)]) };
+        let n0 = *r.pick(&[0u64, 1, 2, 3, 5, 8, 12, 20, 40]);
+        let xs0: Vec<E> = (0..n0).map(|k| (k, 0, gen_prio(&mut r, pf.prio))).collect();
+        // build the prefix once (quietly) to learn the state, then replay it per fault point
+        let mut prefix: Vec<Op> = vec![Op::FromVec(xs0)];
+        let mut q0: AnyQ<H> = AnyQ::new(kind);
+        let _ = catch_unwind(AssertUnwindSafe(|| apply(&mut q0, &prefix[0], Lookup::Owned)));
+        for _ in 0..r.below(6) {
+            let op = gen_op(&mut r, &q0, &pf);
+            if matches!(op, Op::IterMut { forget: true, .. } | Op::Drain { forget: true, .. } | Op::Convert) { continue; }
+            let _ = catch_unwind(AssertUnwindSafe(|| apply(&mut q0, &op, Lookup::Owned)));
+            prefix.push(op);
+        }
+        let len = q0.len() as u64;
+        let present = present_keys(&q0);
+        let anykey = |r: &mut Rng| if !present.is_empty() && r.chance(4, 5) { *r.pick(&present) } else { pf.universe + r.below(3) };
+        let ext = |r: &mut Rng| *r.pick(&[i64::MAX, i64::MIN, 0, 1, 2]);
+        let w = W { prio: Some(ext(&mut r)), payload: None };
+        let big: Vec<E> = (0..r.range(25, 60)).map(|j| (if j % 3 == 0 { j % (len + 1) } else { 1000 + j }, 7, gen_prio(&mut r, pf.prio))).collect();
+        let small: Vec<E> = (0..r.range(1, 5)).map(|j| (if j % 2 == 0 { anykey(&mut r) } else { 2000 + j }, 7, gen_prio(&mut r, pf.prio))).collect();
+        let nb = big.len() as u64;
+        let ns = small.len() as u64;
+        let mut cands: Vec<Op> = vec![
+            Op::Push((pf.universe + 50, 0, ext(&mut r))), Op::Push((anykey(&mut r), 0, ext(&mut r))),
+            Op::PushIncrease((anykey(&mut r), 0, i64::MAX)), Op::PushDecrease((anykey(&mut r), 0, i64::MIN)),
+            Op::ChangePriority(anykey(&mut r), ext(&mut r)), Op::ChangePriorityBy(anykey(&mut r), ext(&mut r)),
+            Op::Remove(anykey(&mut r)),
+            Op::RetainMut(present.iter().map(|k| Row { key: *k, keep: k % 3 != 0, w: W { prio: Some((*k as i64 * 7) % 5), payload: None } }).collect()),
+            Op::IterMut { forget: false, prog: (0..len.min(6)).map(|j| (Call::F, W { prio: Some(100 - j as i64), payload: None })).collect() },
+            Op::Extend { lo: nb, hi: Some(nb), xs: big.clone() }, Op::Extend { lo: 0, hi: None, xs: big.clone() },
+            Op::Extend { lo: ns, hi: Some(ns), xs: small.clone() },
+            Op::FromVec(big.clone()), Op::FromIter { lo: nb, hi: Some(nb), xs: big.clone() }, Op::Append(small.clone()), Op::Append(big.clone()),
+        ];
+        if pq {
+            cands.extend([Op::Pop, Op::PopIf(0, w, true), Op::PopIf(0, w, false)]);
+        } else {
+            cands.extend([Op::PopMin, Op::PopMax, Op::PeekMax, Op::PopIf(1, w, true), Op::PopIf(1, w, false), Op::PopIf(2, w, true), Op::PopIf(2, w, false)]);
+        }
+        let op = r.pick(&cands).clone();
+        let kc = {
+            let mut q = q0.clone_q();
+            let c0 = cmp_count();
+            let _ = catch_unwind(AssertUnwindSafe(|| apply(&mut q, &op, Lookup::Owned)));
+            cmp_count() - c0
+        };
+        drop(q0);
+        let mut ks: Vec<u64> = (1..=kc.min(max_k)).collect();
+        if kc > max_k { ks.push(kc); ks.push(r.range(max_k, kc)); }
+        for k in ks {
+            if sink.full() { break; }
+            if !sink.case(kind) { continue; }
+            let mut q: AnyQ<H> = AnyQ::new(kind);
+            let mut ok = true;
+            for p in &prefix {
+                if !sink.step(&mut q, p, Lookup::Owned) { ok = false; break; }
+            }
+            if !ok { continue; }
+            sink.step(&mut q, &Op::Crash { cmp: 1, k, op: Box::new(op.clone()) }, Lookup::Owned);
+            let _ = catch_unwind(AssertUnwindSafe(move || drop(q)));
+        }
+    }
 }
